@@ -1,13 +1,349 @@
 /-
-Driver ops of the "Funcs" family. `run` returns `none` for op names it does not own.
+Driver ops of the "Funcs" family (properties C15, C16). `run` returns `none` for op names it does
+not own.
+
+Every op line is self-contained:
+
+  op <id> <opname> <pkg> (cfg u s x z l) <parts…>
+
+`cfg` = the five model variant flags (unnamedFixed shadowFixed crossFixed zeroFixed lhsFixed), parts
+are lists with a head atom:
+  (ps (<name> Z<k>)…)   parameters, `<>` = unnamed, `_` = blank; Z<k> = type of the corpus table
+                        (bound by a `ty Z<k> <wire type>` prelude line)
+  (outer …) (inner …)   the two parameter lists of a curried function
+  (rs Z<k>…)            result types          (ts Z<k>…) tuple component types
+  (ins Z<k>…) (stages (Z<k>…)…)  compose chain: parameter types of stage 0, non-error results per stage
+  (in Z<k>) (outs Z<k>…) fmap/join/traverse element and result types
+  (args n…) (list n…) | (nillist)  argument payloads; (fail s k) failing stage and error number or (fail);
+  (errin k) | (errin)   error passed to join; (ok b) (err k) toerror
+  (kind <opname>)       for `build`: which wrapper the package contains
+
+Values are payloads (`0` = the zero value of the type). The instrumented functions compute result `j`
+as `hh tag j args`. Answers:
+  behaviour ops   model=<nocompile|outcome> spec=<outcome>
+  build           model=g0.c<0|1> spec=g0.c1 [why=<reason>]   (goderive exit status, package compiles)
 -/
 import GoderiveModel.U.Wire
+import GoderiveModel.S.Plumb
+import GoderiveModel.S.ErrChain
+import GoderiveModel.Spec.Funcs
 import Driver.State
 
 open Goderive
 
 namespace OpsFuncs
 
-def run (_s : DState) (_name : String) (_args : List SExp) : Option String := none
+open Goderive.Plumb (Param Name)
+
+/-- result `j` of the instrumented function `tag` on `args` (mirrors `hh` of the generated Go code) -/
+def hh (tag j : Nat) (args : List Nat) : Nat :=
+  let rec sum : Nat → List Nat → Nat
+    | _, [] => 0
+    | i, a :: rest => (i + 1) * (a + 1) + sum (i + 1) rest
+  (tag * 7 + j * 13 + sum 0 args) % 89 + 1
+
+structure Flags where
+  plumb : Plumb.Cfg
+  chain : ErrChain.Cfg
+
+def findList (args : List SExp) (head : String) : Option (List SExp) :=
+  args.findSome? fun
+    | .list (.atom h :: rest) => if h == head then some rest else none
+    | _ => none
+
+def bit : SExp → Option Bool
+  | .atom "0" => some false
+  | .atom "1" => some true
+  | _ => none
+
+def parseFlags (args : List SExp) : Option Flags := do
+  let c ← findList args "cfg"
+  match ← c.mapM bit with
+  | [u, s, x, z, l] => some { plumb := { unnamedFixed := u, shadowFixed := s, crossFixed := x },
+                              chain := { zeroFixed := z, lhsFixed := l } }
+  | _ => none
+
+def tyId : SExp → Option Nat
+  | .atom a => if a.startsWith "Z" then (a.drop 1).toNat? else none
+  | _ => none
+
+def parseName (a : String) : Name := if a == "<>" then [] else a.toList
+
+def parseParam : SExp → Option Param
+  | .list [.atom n, t] => do some { name := parseName n, ty := ← tyId t }
+  | _ => none
+
+def parseParams (args : List SExp) (head : String) : Option (List Param) := do
+  (← findList args head).mapM parseParam
+
+def parseTyIds (args : List SExp) (head : String) : Option (List Nat) := do
+  (← findList args head).mapM tyId
+
+def nat : SExp → Option Nat
+  | .atom a => a.toNat?
+  | _ => none
+
+def parseNats (args : List SExp) (head : String) : Option (List Nat) := do
+  (← findList args head).mapM nat
+
+def tyOf (s : DState) (k : Nat) : Option Ty := s.tys.lookup s!"Z{k}"
+
+def isBool (s : DState) (k : Nat) : Bool :=
+  match tyOf s k with
+  | some T => s.env.under T == .basic .bool
+  | none => false
+
+/-- payload normalisation: a bool has only the payloads 0 and 1 -/
+def norm (s : DState) (k : Nat) (n : Nat) : Nat := if isBool s k && n != 0 then 1 else n
+
+/-- the results of the instrumented function `tag` with result types `rs` -/
+def results (s : DState) (tag : Nat) (rs : List Nat) (args : List Nat) : List Nat :=
+  rs.zipIdx.map fun (k, j) => norm s k (hh tag j args)
+
+def joinWith (sep : String) (xs : List String) : String := sep.intercalate xs
+
+def showNats (sep : String) (xs : List Nat) : String := joinWith sep (xs.map toString)
+
+def showOut : Plumb.Out Nat → String
+  | none => "stuck"
+  | some (log, res) => s!"r:{showNats "," res};l:{joinWith "|" (log.map (showNats "."))}"
+
+abbrev Err := Nat × Nat
+
+def showErr : Option Err → String
+  | none => "nil"
+  | some (s, k) => s!"{s}.{k}"
+
+def showLog (log : ErrChain.Log Nat) : String :=
+  joinWith "|" (log.map fun (i, a) => s!"{i}:{showNats "." a}")
+
+def showResult (r : ErrChain.Result Nat Err) : String :=
+  s!"r:{showNats "," r.res};e:{showErr r.err};l:{showLog r.log}"
+
+def showTResult (r : ErrChain.TResult Nat Err) : String :=
+  let o := match r.out with
+    | none => "nil"
+    | some xs => s!"[{showNats "," xs}]"
+  s!"o:{o};e:{showErr r.err};l:{showLog r.log}"
+
+/-- why a C15-style wrapper over the effective parameter names does not compile -/
+def whyNames (ns : List Name) (binders : List Name) : String :=
+  if ns.any (· == []) then "unnamed"
+  else if ns.any (fun n => binders.contains n) then "shadow"
+  else if !Plumb.nodupB (ns.filter Plumb.usable) then "dup"
+  else "other"
+
+def answer (wfOk : Bool) (model spec : String) : String :=
+  if wfOk then s!"model={model} spec={spec}" else s!"model=nocompile spec={spec}"
+
+def buildAnswer (wfOk : Bool) (why : String) : String :=
+  if wfOk then "model=g0.c1 spec=g0.c1" else s!"model=g0.c0 spec=g0.c1 why={why}"
+
+/-- the failing stage of the op line: `(fail s k)` or `(fail)` -/
+def parseFail (args : List SExp) : Option (Option Err) := do
+  match ← parseNats args "fail" with
+  | [] => some none
+  | [s, k] => some (some (s, k))
+  | _ => none
+
+/-- the instrumented stage `i` with result types `rs` -/
+def stage (s : DState) (fail : Option Err) (i : Nat) (rs : List Nat) : ErrChain.Stage Nat Err :=
+  { run := fun a => (results s i rs a, match fail with
+      | some (st, k) => if st == i then some (st, k) else none
+      | none => none) }
+
+def zerosFor (rs : List Nat) : List Nat := rs.map fun _ => 0
+
+/-- wrapper term, well-formedness and reason of a C15 package of the given kind -/
+def plumbWf (cfg : Plumb.Cfg) (kind : String) (args : List SExp) : Option (Bool × String) :=
+  match kind with
+  | "curry" | "flip" | "apply" | "uncurrycurry" => do
+    let ps ← parseParams args "ps"
+    let eff := Plumb.effParams cfg [Plumb.fName] Plumb.paramPrefix ps
+    let why := whyNames (Plumb.names eff) [Plumb.fName]
+    match kind with
+    | "curry" => some (Plumb.wrapperWellFormed (Plumb.curryTm cfg ps), why)
+    | "flip" => some (Plumb.wrapperWellFormed (Plumb.flipTm cfg ps), why)
+    | "apply" => some (Plumb.wrapperWellFormed (Plumb.applyTm cfg ps), why)
+    | _ =>
+      let (first, rest) := Plumb.currySig eff
+      some (Plumb.wrapperWellFormed (Plumb.curryTm cfg ps) &&
+            Plumb.wrapperWellFormed (Plumb.uncurryTm cfg first rest), why)
+  | "uncurry" => do
+    let outer ← parseParams args "outer"
+    let inner ← parseParams args "inner"
+    let (o, i) := Plumb.uncurryParams cfg outer inner
+    some (Plumb.wrapperWellFormed (Plumb.uncurryTm cfg outer inner),
+          whyNames (Plumb.names (o ++ i)) [Plumb.fName])
+  | "tuple" => do
+    let ts ← parseTyIds args "ts"
+    some (Plumb.wrapperWellFormed (Plumb.tupleTm ts), "other")
+  | _ => none
+
+/-- well-formedness and reason of a C16 package -/
+def chainWf (s : DState) (fl : Flags) (kind : String) (args : List SExp) : Option (Bool × String) :=
+  let env := s.env
+  let tysOf (ks : List Nat) : Option (List Ty) := ks.mapM (tyOf s)
+  let whyZ (lhsOk : Bool) : String := if lhsOk then "zero" else "emptylhs"
+  match kind with
+  | "compose" => do
+    let st ← findList args "stages"
+    let outs ← st.mapM fun
+      | .list xs => (xs.mapM tyId).bind tysOf
+      | _ => none
+    let lhsOk := fl.chain.lhsFixed || outs.all (fun o => !o.isEmpty)
+    some (ErrChain.composeWf fl.chain env outs, whyZ lhsOk)
+  | "fmape" => do
+    let outs ← (parseTyIds args "outs").bind tysOf
+    some (ErrChain.fmapWf fl.chain env outs, "zero")
+  | "joine" => do
+    let outs ← (parseTyIds args "outs").bind tysOf
+    some (ErrChain.joinWf fl.chain env outs, "zero")
+  | "bind" => do
+    -- fmap's default case returns a nil function; join prints the zero of f's non-error results
+    let outs ← (parseTyIds args "outs").bind tysOf
+    some (ErrChain.joinWf fl.chain env outs, "zero")
+  | "traverse" => some (true, "other")
+  | "toerror" => do
+    let ps ← parseParams args "ps"
+    let eff := ErrChain.toErrorParams fl.plumb ps
+    some (ErrChain.toErrorWf fl.plumb ps, whyNames (Plumb.names eff) [Plumb.fName, ErrChain.errName])
+  | _ => none
+
+def fTag : Nat := 5
+
+def runPlumb (s : DState) (fl : Flags) (name : String) (args : List SExp) : Option String := do
+  let cfg := fl.plumb
+  let (ok, _) ← plumbWf cfg name args
+  let vs ← parseNats args "args"
+  match name with
+  | "tuple" =>
+    let ts ← parseTyIds args "ts"
+    if vs.length != ts.length then none else
+    some (answer ok (showOut (Plumb.runTuple ts vs)) (showOut (Spec.tupleSpec vs)))
+  | "uncurry" =>
+    let outer ← parseParams args "outer"
+    let inner ← parseParams args "inner"
+    let rs ← parseTyIds args "rs"
+    if vs.length != outer.length + inner.length || outer.length != 1 then none else
+    let f := results s fTag rs
+    some (answer ok (showOut (Plumb.runUncurry cfg outer inner f vs)) (showOut (Spec.uncurrySpec f vs)))
+  | _ =>
+    let ps ← parseParams args "ps"
+    let rs ← parseTyIds args "rs"
+    if vs.length != ps.length || ps.length < 2 then none else
+    let f := results s fTag rs
+    match name, vs with
+    | "curry", a :: rest =>
+      some (answer ok (showOut (Plumb.runCurry cfg ps f a rest)) (showOut (Spec.currySpec f a rest)))
+    | "flip", a :: b :: rest =>
+      -- the op line lists the arguments in f's order; the wrapper is called with the first two swapped
+      some (answer ok (showOut (Plumb.runFlip cfg ps f (b :: a :: rest))) (showOut (Spec.flipSpec f (b :: a :: rest))))
+    | "apply", _ =>
+      let last := vs.getLast?.getD 0
+      some (answer ok (showOut (Plumb.runApply cfg ps f last vs.dropLast)) (showOut (Spec.applySpec f last vs.dropLast)))
+    | "uncurrycurry", _ =>
+      some (answer ok (showOut (Plumb.runUncurryCurry cfg ps f vs)) (showOut (Spec.callOnce f vs)))
+    | _, _ => none
+
+def runChain (s : DState) (fl : Flags) (name : String) (args : List SExp) : Option String := do
+  let (ok, _) ← chainWf s fl name args
+  match name with
+  | "compose" =>
+    let ins ← parseTyIds args "ins"
+    let st ← findList args "stages"
+    let outs ← st.mapM fun
+      | .list xs => xs.mapM tyId
+      | _ => none
+    let fail ← parseFail args
+    let vs ← parseNats args "args"
+    if vs.length != ins.length then none else
+    let stages := outs.zipIdx.map fun (rs, i) => stage s fail i rs
+    let zeros := zerosFor (outs.getLast?.getD [])
+    some (answer ok (showResult (ErrChain.compose zeros stages vs)) (showResult (Spec.composeSpec zeros stages vs)))
+  | "fmape" =>
+    let a ← parseTyIds args "in"
+    let outs ← parseTyIds args "outs"
+    let fail ← parseFail args
+    let g := stage s fail 0 a
+    let f := results s 1 outs
+    -- one result: its zero; two or more: the nil function (one zero); none: nothing
+    let zeros := match outs with
+      | [] => []
+      | _ => [0]
+    some (answer ok (showResult (ErrChain.fmapE zeros g f)) (showResult (Spec.fmapESpec zeros g f)))
+  | "joine" =>
+    let outs ← parseTyIds args "outs"
+    let fail ← parseFail args
+    let errin ← match ← parseNats args "errin" with
+      | [] => some none
+      | [k] => some (some (9, k))
+      | _ => none
+    let f := stage s fail 1 outs
+    some (answer ok (showResult (ErrChain.joinE (zerosFor outs) f errin)) (showResult (Spec.joinESpec (zerosFor outs) f errin)))
+  | "bind" =>
+    let a ← parseTyIds args "in"
+    let outs ← parseTyIds args "outs"
+    let fail ← parseFail args
+    let g := stage s fail 0 a
+    let f := stage s fail 1 outs
+    some (answer ok (showResult (ErrChain.bindE (zerosFor outs) g f)) (showResult (Spec.bindESpec (zerosFor outs) g f)))
+  | "traverse" =>
+    let out ← parseTyIds args "outs"
+    let fail ← parseFail args          -- (fail i k): the call on element index i fails
+    let list ← match parseNats args "list" with     -- `(nillist)`: the nil slice, `(list)`: an empty one
+      | some l => some l
+      | none => (findList args "nillist").map fun _ => []
+    match out with
+    | [t] =>
+      -- the element function is told the index through the log position: failing is by *index*, so
+      -- the model threads the index as part of the element (payload, index) — see `felem`
+      let felem : Nat × Nat → (Nat × Nat) × Option Err := fun (x, i) =>
+        ((norm s t (hh 0 0 [x]), i), match fail with
+          | some (fi, k) => if fi == i then some (0, k) else none
+          | none => none)
+      let xs := list.zipIdx
+      let strip (r : ErrChain.TResult (Nat × Nat) Err) : ErrChain.TResult Nat Err :=
+        { out := r.out.map (·.map (·.1)), err := r.err, log := r.log.map fun (i, a) => (i, a.map (·.1)) }
+      some (answer ok (showTResult (strip (ErrChain.traverse felem xs))) (showTResult (strip (Spec.traverseSpec felem xs))))
+    | _ => none
+  | "toerror" =>
+    let ps ← parseParams args "ps"
+    let rs ← parseTyIds args "rs"
+    let vs ← parseNats args "args"
+    let okFlag ← match ← parseNats args "ok" with
+      | [b] => some (b != 0)
+      | _ => none
+    let k ← match ← parseNats args "err" with
+      | [k] => some k
+      | _ => none
+    if vs.length != ps.length then none else
+    let f : List Nat → List Nat × Bool := fun a => (results s 0 rs a, okFlag)
+    some (answer ok (showResult (ErrChain.toError (9, k) f vs)) (showResult (Spec.toErrorSpec (9, k) f vs)))
+  | _ => none
+
+def plumbOps : List String := ["curry", "flip", "apply", "uncurry", "uncurrycurry", "tuple"]
+def chainOps : List String := ["compose", "fmape", "joine", "bind", "traverse", "toerror"]
+
+def run (s : DState) (name : String) (args : List SExp) : Option String :=
+  if name == "build" || plumbOps.contains name || chainOps.contains name then
+    -- args[0] is the package atom
+    let args := args.drop 1
+    let r : Option String := do
+      let fl ← parseFlags args
+      if name == "build" then
+        match ← findList args "kind" with
+        | [.atom kind] =>
+          if plumbOps.contains kind then
+            let (ok, why) ← plumbWf fl.plumb kind args
+            some (buildAnswer ok why)
+          else
+            let (ok, why) ← chainWf s fl kind args
+            some (buildAnswer ok why)
+        | _ => none
+      else if plumbOps.contains name then runPlumb s fl name args
+      else runChain s fl name args
+    some (r.getD "bad-op")
+  else none
 
 end OpsFuncs
